@@ -7,7 +7,7 @@ KINDS = ["ND_ADD", "ND_SUB", "ND_MUL", "ND_DIV", "ND_MOD", "ND_BITAND", "ND_BITO
 META = dict(
     level="proof",
     claim="The integer constant folder (eval2/eval3) returns, for every operator kind, every operand type and every operand value for which C11 defines the result, exactly the C11 value canonicalised to the node's type; division by zero never returns normally (it is diagnosed). Proved per node kind by a recursive function contract (children abstract), so nesting depth is covered by the contract rule. MUL/DIV/MOD value equality is bounded (8-bit magnitudes) and reported as bounded.",
-    note="Trusted: CBMC, spec/c11_ops.h (C11 rendering), LP64 model. Not covered: the parser that builds the nodes, consumers' narrowing of the 64-bit result, long double folding.",
+    note="Trusted: CBMC, spec/c11_ops.h (C11 rendering), LP64 model. Also: integer-typed nodes over floating operands (== != < <= ! && || ?: with a floating condition, casts from float/double to every integer type incl. _Bool and unsigned long) equal the C11 value for every operand value incl. NaN and fractions. Not covered: the parser that builds the nodes, consumers' narrowing of the 64-bit result, long double folding.",
     functions=["parse.c:eval2", "parse.c:eval3", "parse.c:eval", "parse.c:eval_double"],
     trusted_base=["CBMC 6.11 (goto-cc, DFCC instrumentation, symex, minisat2)", "spec/c11_ops.h as a rendering of C11 6.3.1.3 / 6.5.x",
                   "LP64 data model of goto-cc == that of the host gcc"],
@@ -32,6 +32,11 @@ def jobs(tier):
                       cut=["error", "error_tok", "error_at", "warn_tok"], timeout=180,
                       no_checks=["signed-overflow", "undefined-shift"],
                       bounded=bounded, sample=f"eval2 on a {k} node, all operand types/values"))
+    for k in ("ND_DIV", "ND_MOD"):
+        # the folder itself must not trap: divisor -1 with EVERY 64-bit dividend, CBMC's own overflow check switched on for the division
+        js.append(Job(name=f"eval2-{k}-by-minus-one", src="eval2.c", group="C07.2 no trap in the folder", defs={"KIND": k, "RHS_M1": "1", "FIX_TN": "7", "TRAP_CASE": "1"},
+                      units=["type.c"], mode="dfcc", enforce="eval2", rec=True, replace=["add_type"], cut=["error", "error_tok", "error_at", "warn_tok"], timeout=180,
+                      no_checks=["undefined-shift"], sample=f"eval2 on {k} with divisor -1 and every dividend (long)"))
     for k in ("ND_ADD", "ND_SUB", "ND_NEG", "ND_COND", "ND_COMMA", "ND_NUM", "ND_CAST"):
         js.append(Job(name=f"evald-{k}", src="evald.c", group="C07.3 floating folder", defs={"KIND": k}, units=["type.c"], mode="dfcc", enforce="eval_double", rec=True,
                       replace=["add_type", "eval2"], cut=["error", "error_tok", "error_at", "warn_tok"], timeout=300, replay=None,
